@@ -350,6 +350,11 @@ class Plane:
             plane.amplitude = lentil.rescale(plane.amplitude, scale=scale, shape=None,
                                                 mask=None, order=3, mode='nearest',
                                                 unitary=False)/scale
+        elif plane._mask.ndim > 1:
+            # a constant amplitude over a mask array: the mask covers scale**2
+            # times as many samples, so the constant is scaled like an
+            # amplitude array to preserve total power
+            plane.amplitude = plane.amplitude/scale
 
         if plane.opd.ndim > 1:
             plane.opd = lentil.rescale(plane.opd, scale=scale, shape=None, mask=None,
